@@ -471,6 +471,13 @@ func c08Run(c *fw.Case, env *fw.Env) *fw.Obs {
 		runScenario(sc, "family-"+p.Family)
 		sc2 := &c08Scenario{parents: parents, mode: "equal", refs: []int{n - 1}, wants: []int{n - 1}, rounds: [][]int{{0}}, depth: 1, shallow: map[int]bool{}}
 		runScenario(sc2, "family-"+p.Family)
+		// an acknowledged have with a deep merge ancestry: the walk over its ancestors counts as work too
+		if n > 4 {
+			sc3 := &c08Scenario{parents: parents, mode: "increasing", refs: []int{n - 1}, wants: []int{n - 1}, rounds: [][]int{{n - 4, n - 2}}, depth: 0, shallow: map[int]bool{}}
+			runScenario(sc3, "family-"+p.Family)
+			sc4 := &c08Scenario{parents: parents, mode: "decreasing", refs: []int{n - 1, n - 3}, wants: []int{n - 1}, rounds: [][]int{{n - 3}, {n - 2}}, depth: 2, shallow: map[int]bool{}}
+			runScenario(sc4, "family-"+p.Family)
+		}
 		o.Key("family/%s/%d", p.Family, p.K)
 	case "fixed":
 		// nested wants with depth>0 (#20): two branches, one behind the other
